@@ -15,6 +15,31 @@ func funcID(name string) *Term {
 	return IntC(int64(2000000) + int64(h.Sum32()%1000000000))
 }
 
+// checkSinks: `sink <callee> requires <expr>` clauses of the unit under
+// verification are obligations at every call of that callee, evaluated in
+// the caller's scope (locals visible at the call).
+func (x *Exec) checkSinks(e *ast.CallExpr, st *State, calleeShort string) {
+	if x.c == nil {
+		return
+	}
+	for _, sk := range x.c.Sinks {
+		pat := sk.Pattern
+		if !(calleeShort == pat || strings.HasSuffix(calleeShort, "."+pat) || strings.HasSuffix(calleeShort, ")."+pat)) {
+			continue
+		}
+		old := x.curPos
+		x.curPos = e.Pos()
+		g := x.cbool(sk.C.Expr, x.cctx(st, sk.C))
+		x.curPos = old
+		label := sk.C.Label
+		if label == "" {
+			label = "s"
+		}
+		x.obligeClause(st, "sink", x.site("sink@"+pat, e)+"."+label, sk.C, g, e.Pos())
+		st.add(g)
+	}
+}
+
 // checkCallbackLit verifies the body of a function literal passed as a
 // callback: parameters are arbitrary (restricted by the contract's
 // `lit N requires` clause), captured variables have their current values.
@@ -91,6 +116,12 @@ func (x *Exec) checkFrame() {
 			all = true
 		case strings.HasPrefix(mod, "map:"):
 			declared[mod] = true
+		case strings.HasPrefix(mod, "*"):
+			if pt := x.paramType(x.c, x.unit.Fn, mod[1:]); pt != nil {
+				if p, ok := pt.Underlying().(*types.Pointer); ok {
+					declared[typeKey(p.Elem())] = true
+				}
+			}
 		case strings.Contains(mod, "@"):
 			if key, ft := x.typedFieldKey(x.c.Pkg, mod[strings.Index(mod, "@")+1:]); ft != nil {
 				declared[key] = true
